@@ -157,8 +157,8 @@ PROPS = {
         trusted=["sync.RWMutex implements the modelled semantics (writer preference: a pending Lock blocks new RLocks); the Go memory model; the race detector observes the executed schedules only",
                  "the lock table is extracted syntactically (Lock/RLock/Unlock/RUnlock on the mutex field, deferred releases moved to the end, calls to listed methods inlined); closures passed as callbacks are not followed",
                  "porcupine v1.3.0 (linearizability checker) and the finite-map sequential specification of C01 used as its model"],
-        statement="lock-hierarchy deadlock freedom, mutual exclusion of lock-wrapped ops, fan-out race freedom; any thread count",
-        partial="proved: deadlock freedom and mutual exclusion of the lock protocol for any number of threads and any disciplined programs; the regenerated programs of the public methods are disciplined (decide). Linearizability itself is argued from mutual exclusion + 'every public method is one critical section' and is checked on recorded concurrent histories (porcupine); it is not a Lean theorem. Data-race freedom of the fan-out goroutines rests on two regenerated facts (synchronised random source, one goroutine per tree) and the race detector",
+        statement="lock-hierarchy deadlock freedom, mutual exclusion, linearizability of lock-wrapped calls (every interleaving = serial run in acquisition order), fan-out race freedom; any thread count",
+        partial="proved: deadlock freedom and mutual exclusion of the lock protocol for any number of threads and any disciplined programs; the regenerated programs of the public methods are disciplined (decide). linearizable / linearizable_at_every_moment / serial_order_extends_real_time (Lemmas/Linearize.lean): for every thread count, every program of calls and every interleaving at micro-step granularity under reader/writer exclusion, the execution equals the serial execution of the calls in lock-acquisition order (same final state, same result for every call, program order kept, real-time order extended). That the public methods have the shape this machine assumes is regenerated from the source: one_critical_section (Lock/RLock first, release deferred) and readers_do_not_write (no write rooted at the receiver in any function running under the read lock). Not modelled: the Go memory model below the lock (the race detector runs in the harness), and sync.RWMutex itself is trusted to exclude. Recorded concurrent histories are additionally checked with porcupine. Data-race freedom of the fan-out goroutines rests on two regenerated facts (synchronised random source, one goroutine per tree) and the race detector",
     ),
     "C11": dict(
         modules=["Syzgy.Props.C11"], ties=["Snapshot"],
